@@ -11,6 +11,7 @@ let () =
     | "visit" -> M_visit.handle
     | "validate" -> M_validate.handle
     | "lints" -> M_lints.handle
+    | "emit" -> M_emit.handle
     | _ -> prerr_endline ("unknown component " ^ comp); exit 2 in
   let out = Buffer.create 65536 in
   (try while true do
